@@ -229,6 +229,10 @@ pub enum Op {
     /// length of event.map, 1 = at the current length of data.mdb, 2 = 8 KiB, 3 = the larger of
     /// the two lengths, 4..7 = 1/8, 1/4, 3/8, 5/8 of the length of data.mdb, 8 = 90 bytes beyond the used part of event.map
     Fsize(u8),
+    /// the event map as it is after gigabytes of events that are long gone: the store is closed,
+    /// the file lengthened (sparsely) and its end marker moved to this offset, the store reopened.
+    /// Everything stored before keeps its offset; what is stored next lies beyond.
+    Inflate(u64),
 }
 
 impl Op {
@@ -261,6 +265,7 @@ impl Op {
             Op::Fail(_) => "fail",
             Op::Starve => "starve",
             Op::Fsize(_) => "fsize",
+            Op::Inflate(_) => "inflate",
         }
     }
     pub fn is_modifier(&self) -> bool {
@@ -558,6 +563,7 @@ impl Op {
             Op::Fail(k) => format!("fail k={k}"),
             Op::Starve => "starve".into(),
             Op::Fsize(m) => format!("fsize mode={m}"),
+            Op::Inflate(e) => format!("inflate end={e}"),
         }
     }
 
@@ -593,6 +599,7 @@ impl Op {
             "fail" => Op::Fail(kv.get("k")?.parse().map_err(e)?),
             "starve" => Op::Starve,
             "fsize" => Op::Fsize(kv.get("mode")?.parse().map_err(e)?),
+            "inflate" => Op::Inflate(kv.get("end")?.parse().map_err(e)?),
             x => return Err(format!("unknown op {x}")),
         })
     }
